@@ -2,8 +2,10 @@ SPECIFICATION SSpec
 CONSTANTS
   Threads = {1, 2, 3}
   Scans = 2
+  SaveMask = TRUE
+  MaxFaults = 2
   CountInsideIf = FALSE
-INVARIANTS HandlerCoversBody CountExact InstalledIffUsed NonNegative
+INVARIANTS NeverKilled MaskRestored HandlerCoversBody CountExact InstalledIffUsed NonNegative
 PROPERTY AllDone
 VIEW svarsNoLog
 CHECK_DEADLOCK FALSE
